@@ -48,6 +48,11 @@ XFER = [
     sym('bgtu', lambda l: I('bltu', 'bgtu x5, x6, ' + l, rs1=6, rs2=5, imm=('offset', l)), 'ref'),
     sym('c.j', lambda l: L.cinst('c.j', imm=('offset', l)), 'ref'),
     sym('c.beqz', lambda l: L.cinst('c.beqz', rs1=8, imm=('offset', l)), 'ref'),
+    # hand-written compressed transfers naming their label directly (like jal / beq do)
+    sym('c.jB', lambda l: L.cinst('c.j', 'c.j ' + l, imm=('offset', l)), 'ref'),
+    sym('c.jalB', lambda l: L.cinst('c.jal', 'c.jal ' + l, imm=('offset', l)), 'ref'),
+    sym('c.beqzB', lambda l: L.cinst('c.beqz', 'c.beqz x8, ' + l, rs1=8, imm=('offset', l)), 'ref'),
+    sym('c.bnezB', lambda l: L.cinst('c.bnez', 'c.bnez x9, ' + l, rs1=9, imm=('offset', l)), 'ref'),
     sym('call', lambda l: L.call(l), 'ref'),
     sym('tail', lambda l: L.call(l, tail=True), 'ref'),
 ]
